@@ -172,6 +172,9 @@ def run(v, tier, seed):
                      "ops": [render(o) for o in ops[:step + 1]], "step": step, "impl": decode_tok(x), "model": decode_tok(y), "disagreeing_cases": len(diffs),
                      "broken_obligation": "correspondence core/C03 (Model/Core.v notify, do_subscribe, do_psubscribe; Model/Subs.v)"}, no_input=True)
     mix = run_rest_mix(v, tier, seed, work) if not v.violations else {}
+    if not v.violations:
+        import storm
+        v.cov["concurrent"] = storm.run_storms(v, tier, seed, work, "-c03", "For C03: current state, then every matching change once, in the order the server applied them, on the socket.")
     v.cov.update({"evaluations": ncases, "distinct_nontrivial": len(nontrivial), "steps": nsteps, "disagreements": len(diffs), "events_observed": nev, **mix,
                   "rest_mix_rule": "three socket sessions of a real in-process server subscribe (key, pattern, ls); sets, deletes, pattern deletes, publishes, imports arrive over the REST front end, interleaved with socket writes: the REST answer and every message on every socket are compared with Model/RestWorld.v (a REST request runs on the one core, its traffic is routed to the sessions)",
                   "rule": f"corpus + every history of <= {L} writes over a {len(WRITES)}-op alphabet with a subscription (6 key/pattern shapes x unique x live-only) inserted at every position, unsubscribe inserted in a third of them ({n_exh} histories) + {nrand} random histories (subscribe/psubscribe/unsubscribe/spub/publish/import mixed with writes, several clients); non-trivial = at least two events delivered",
